@@ -4,7 +4,7 @@ TLC has no reals.  A sequence of logged objective values (floats) is turned into
 integer codes per value:
   objx  exact dense rank (equal floats <=> equal codes; order preserved): bookkeeping of maxima
   obj   tolerance rank: the distinct values are sorted and neighbours closer than
-        tol(v) = rel * max(1, |v|) are merged (single linkage).  Two values with different
+        tol(v) = rel * max(1, |v|) (+ an optional per-value rounding bound) are merged (single linkage).  Two values with different
         codes therefore differ by MORE than the tolerance, so a decrease of the code is a
         decrease beyond rounding; chains of sub-tolerance moves are (deliberately) not flagged.
 """
@@ -19,8 +19,16 @@ from . import tlc
 REL_TOL = 1e-9
 
 
-def ranks(values, rel=REL_TOL):
-    """values: list of floats (no NaN) -> (tolerance ranks, exact ranks)"""
+def ranks(values, rel=REL_TOL, extra=None):
+    """values: list of floats (no NaN) -> (tolerance ranks, exact ranks).
+    extra: optional absolute tolerance per value (a forward rounding bound of the computation that produced it),
+    added to rel * max(1, |v|); two neighbours are merged when their gap is within the larger of their tolerances"""
+    tol = {}
+    for i, v in enumerate(values):
+        t = rel * max(1.0, abs(v)) if math.isfinite(v) else 0.0
+        if extra is not None:
+            t += extra[i]
+        tol[v] = max(tol.get(v, 0.0), t)
     distinct = sorted(set(values))
     exact = {v: i for i, v in enumerate(distinct)}
     tolr, k = {}, 0
@@ -30,7 +38,7 @@ def ranks(values, rel=REL_TOL):
             if math.isinf(v) or math.isinf(p):
                 gap = v != p
             else:
-                gap = (v - p) > rel * max(1.0, abs(v), abs(p))
+                gap = (v - p) > max(tol[v], tol[p])
             if gap:
                 k += 1
         tolr[v] = k
